@@ -520,6 +520,10 @@ func (g *encGen) field(d int) encField {
 		f := encField{F: "prim", Key: g.key(), P: g.prim(), Calls: []encCall{}}
 		if f.P.S != nil && r.Chance(1, 4) { // zap.Binary: the string is the base64 text of the payload
 			raw := g.str()
+			if r.Chance(1, 3) {
+				// long payloads, at and around multiples of 3, powers of two and plausible chunk sizes of an encoder
+				raw = exactBytes(r, Pick(r, []int{47, 48, 49, 57, 63, 64, 65, 66, 96, 127, 128, 129, 192, 193, 255, 256, 257, 511, 513, 1000, 1023, 1025, 3071, 3072, 3073, 4097}))
+			}
 			b64 := hx([]byte(base64.StdEncoding.EncodeToString(raw)))
 			rh := hx(raw)
 			f.P.S, f.Bin = &b64, &rh
@@ -808,4 +812,13 @@ func genEncOps(r *Rand, n int, console bool, hostilePct, faults, depth, maxField
 		op.Fields = g.fields(maxFields)
 		emit(op)
 	}
+}
+
+// exactBytes: exactly n arbitrary bytes.
+func exactBytes(r *Rand, n int) []byte {
+	b := make([]byte, n)
+	for i := range b {
+		b[i] = byte(r.Intn(256))
+	}
+	return b
 }
